@@ -3,6 +3,8 @@ package hook
 
 import (
 	"fmt"
+	"os"
+	"runtime/debug"
 	"sync"
 
 	"github.com/avfs/avfs/idm/memidm"
@@ -42,6 +44,10 @@ func Sequential() {
 				mu.RUnlock()
 				return
 			}
+		}
+		if os.Getenv("VERIF_DEADLOCK_STACK") != "" {
+			// debugging aid: where the lock that is still held was expected to be free
+			fmt.Fprintf(os.Stderr, "DEADLOCK-STACK write=%v\n%s\n", write, debug.Stack())
 		}
 		panic(fsx.DeadlockPanic{What: fmt.Sprintf("single goroutine blocks forever acquiring a lock it cannot get (write=%v)", write)})
 	})
